@@ -12,11 +12,18 @@ impl Repr {
     /// Find the simplest rational number in the open interval `(lower, upper)`.
     /// See [RBig::simplest_in()] and <https://stackoverflow.com/q/66980340/5960776>.
     pub fn simplest_in(mut lower: Self, mut upper: Self) -> Self {
-        let sign = if lower.numerator.sign() != upper.numerator.sign() {
-            // if lower < 0 < upper, then 0 is the simplest
-            return Self::zero();
-        } else {
-            lower.numerator.sign()
+        // a zero endpoint is not part of the open interval: it takes the sign of the other endpoint
+        let sign = match (lower.numerator.is_zero(), upper.numerator.is_zero()) {
+            (true, true) => return Self::zero(),
+            (true, false) => upper.numerator.sign(),
+            (false, true) => lower.numerator.sign(),
+            (false, false) => {
+                if lower.numerator.sign() != upper.numerator.sign() {
+                    // if lower < 0 < upper, then 0 is the simplest
+                    return Self::zero();
+                }
+                lower.numerator.sign()
+            }
         };
         lower = lower.abs();
         upper = upper.abs();
@@ -118,9 +125,11 @@ impl RBig {
     /// This method only make sense for canonicalized ratios.
     #[inline]
     pub fn is_simpler_than(&self, other: &Self) -> bool {
-        (self.denominator() < other.denominator()) // first compare denominator
-            && self.numerator().abs_cmp(other.numerator()).is_le() // then compare numerator
-            && self.sign() > other.sign() // then compare sign
+        self.denominator()
+            .cmp(other.denominator()) // first compare denominator
+            .then_with(|| self.numerator().abs_cmp(other.numerator())) // then compare numerator
+            .then_with(|| other.sign().cmp(&self.sign())) // then compare sign
+            .is_lt()
     }
 
     /// Find the simplest rational number in the rounding interval of the [f32] number.
